@@ -28,6 +28,7 @@ def cases(tier):
         L.append(fsm_case('C03', fx, 'enter', base + ['ENTRY=7'], timeout=600 * T))
         L.append(fsm_case('C03', fx, 'exit', base + ['ENTRY=8'], timeout=600 * T, witness=False))
         L.append(fsm_case('C03', fx, 'life_manual', ['FROM_CONSTRUCTION', 'ENTRY=1', 'P_C03', 'MON_LIFE', 'CB_KINDS=0x9e', 'CB_BUDGET=1'], timeout=900 * T, witness=False))
+    mark_cover(L, ['c03.f5.imm1', 'c03.f5.imm2'])
     return L
 
 def run(tier, seed):
